@@ -100,11 +100,18 @@ Proof. split; [apply zero_never_fires|]. split; [apply one_always_fires|]. vm_co
 (* The gate's comparison IS the IEEE-754 binary64 `<` (Flocq 4.1: Bits.b64_of_bits decodes the rate's bit
    pattern, Binary.B2R gives its value): for every k and every 64-bit pattern of the rate, the model's
    integer decision on the pattern equals "k * 2^-53 < rate" in IEEE arithmetic - NaN compares false, +inf
-   true, -inf / -0 / +0 / negative numbers false, subnormal and normal numbers by value.  (That the draw is
-   the real number k * 2^-53 exactly - u64-to-f64 conversion of k < 2^53 and scaling by a power of two are
-   exact - is the one IEEE fact used but not re-proved here.) *)
+   true, -inf / -0 / +0 / negative numbers false, subnormal and normal numbers by value.  C15_draw_exact:
+   the draw itself - Rust's `(bits >> 11) as f64 / (1u64 << 53) as f64`, read as Flocq's round-to-nearest
+   integer conversion and division - is a finite binary64 of value k * 2^-53 exactly, for every k < 2^53. *)
 From PF.proofs Require GateIEEE.
 Theorem C15_gate_ieee : forall k rate, (rate < 2 ^ 64)%N ->
   dyadic_lt k rate = GateIEEE.ieee_lt (GateIEEE.draw_R k) (GateIEEE.rate_f rate).
 Proof. exact GateIEEE.dyadic_lt_ieee. Qed.
 Print Assumptions C15_gate_ieee.
+
+Theorem C15_draw_exact : forall k div_nan, (k < 2 ^ 53)%N ->
+  let d := Flocq.IEEE754.Binary.Bdiv 53 1024 GateIEEE.Hprec GateIEEE.Hemax div_nan Flocq.IEEE754.BinarySingleNaN.mode_NE
+             (GateIEEE.of_int (Z.of_N k)) (GateIEEE.of_int (2 ^ 53)) in
+  Flocq.IEEE754.Binary.is_finite 53 1024 d = true /\ Flocq.IEEE754.Binary.B2R 53 1024 d = GateIEEE.draw_R k.
+Proof. exact GateIEEE.draw_exact. Qed.
+Print Assumptions C15_draw_exact.
